@@ -125,3 +125,16 @@ Proof.
   - unfold takeN, B. rewrite blit_nat_0. unfold len. rewrite Nat2N.id.
     change (N.to_nat 184) with 184%nat. apply firstn_firstn_app_skipn. reflexivity.
 Qed.
+
+(* ------------------------------------------------------------------ function-style SetPayload of create.go on a well-formed packet *)
+From Gots Require Import Proofs.PayloadPart.
+Lemma set_payload_fn_spec l d : Iso.wf_lpkt l ->
+  Create.SetPayload_fn (Iso.ser_pkt l) d =
+  (hdr_part l ++ firstn (length (Iso.lpayload l)) d ++ skipn (length d) (Iso.lpayload l),
+   N.min (len d) (len (Iso.lpayload l))).
+Proof.
+  intros W. destruct (payload_start l W) as [PF _]. pose proof (wf_len l W) as L188.
+  unfold Create.SetPayload_fn. rewrite PF. rewrite ser_pkt_split in *. rewrite len_app in L188. f_equal.
+  - unfold blit, len. rewrite Nat2N.id, blit_nat_app, blit_nat_0. reflexivity.
+  - unfold PacketSize. f_equal. lia.
+Qed.
